@@ -46,6 +46,29 @@ RoutingKey build_pattern(const Pattern &p) {
     return b.build();
 }
 
+// the same pattern built the other way: the first k levels through the variadic RoutingKeyBuilder constructor, the rest chained with level()/all()
+template<typename... A> RoutingKey build_split(const Pattern &p, size_t k, size_t i, A &&...args) {
+    if (i == k) {
+        RoutingKeyBuilder b{std::forward<A>(args)...};
+        for (size_t j = k; j < p.size(); j++) switch (p[j]) {
+            case L_A: b.level(std::string("a")); break; case L_B: b.level(std::string("b")); break; case L_AB: b.level(std::string("ab")); break;
+            case L_ALL: b.all(); break; case L_RX_ASTAR: b.level(std::regex("a.*")); break; case L_RX_AORB: b.level(std::regex("a|b")); break; case L_RX_A: b.level(std::regex("a")); break;
+        }
+        return b.build();
+    }
+    if constexpr (sizeof...(A) < 3) {
+        switch (p[i]) {
+        case L_A: return build_split(p, k, i + 1, std::forward<A>(args)..., std::string("a"));
+        case L_B: return build_split(p, k, i + 1, std::forward<A>(args)..., std::string("b"));
+        case L_AB: return build_split(p, k, i + 1, std::forward<A>(args)..., std::string("ab"));
+        case L_RX_ASTAR: return build_split(p, k, i + 1, std::forward<A>(args)..., std::regex("a.*"));
+        case L_RX_AORB: return build_split(p, k, i + 1, std::forward<A>(args)..., std::regex("a|b"));
+        case L_RX_A: return build_split(p, k, i + 1, std::forward<A>(args)..., std::regex("a"));
+        }
+    }
+    return build_pattern(p);
+}
+
 struct Universe {
     std::vector<Path> sub_keys;          // keys that can be subscribed
     std::vector<Path> all_keys;          // prefix closure (everything that can be stored)
@@ -373,6 +396,33 @@ template<typename R, typename... Args> void bfs(int maxlive, bool c13, const cha
     }
 }
 
+// Every probe pattern built in every style (the first k levels through the variadic RoutingKeyBuilder constructor, the rest chained) must route exactly like the
+// independent matcher says, on a router that holds one observer under every subscribable key.
+template<typename R> void builder_styles(const char *rname) {
+    R router;
+    std::vector<int> called;
+    std::vector<decltype(router.template subscribe<>(build_key(U->sub_keys[0]), [] {}))> subs;
+    for (size_t i = 0; i < U->sub_keys.size(); i++) { int id = (int)i; subs.push_back(router.template subscribe<>(build_key(U->sub_keys[i]), [&called, id] { called.push_back(id); })); }
+    for (size_t pi = 0; pi < U->patterns.size(); pi++) {
+        const Pattern &p = U->patterns[pi];
+        for (size_t k = 0; k <= p.size(); k++) {
+            bool ok = true; for (size_t j = 0; j < k; j++) ok &= p[j] != L_ALL;      // all() exists only as a chained call
+            if (!ok) continue;
+            std::string hist = fmt("builder router=%s pattern=%zu split=%zu", rname, pi, k);
+            mark(hist);
+            called.clear();
+            size_t ret = router.notify(build_split(p, k, 0));
+            std::vector<int> want; for (size_t i = 0; i < U->sub_keys.size(); i++) if (matches(p, U->sub_keys[i])) want.push_back((int)i);
+            std::sort(called.begin(), called.end());
+            shm->evaluations++; shm->transitions++; if (!want.empty()) shm->nontrivial++;
+            if (called != want || ret != want.size()) {
+                std::string a, b; for (int c : called) a += path_str(U->sub_keys[c]) + " "; for (int c : want) b += path_str(U->sub_keys[c]) + " ";
+                violation("builder:delivery", fmt("notify(%s), pattern built with the first %zu level(s) through the RoutingKeyBuilder constructor and the rest chained, returned %zu and reached {%s}; the matching keys are {%s}", pat_str(p).c_str(), k, ret, a.c_str(), b.c_str()), hist);
+            }
+        }
+    }
+}
+
 void explore() {
     bool c13 = opt.property == "C13";
     build_universe(thorough());
@@ -391,6 +441,7 @@ void explore() {
         tasks.push_back([=] { bfs<ConcurrentSubjectRouter>(2, false, "concurrent"); });
         tasks.push_back([=] { bfs<ConcurrentSubjectRouter, std::string>(2, false, "concurrent"); });
         tasks.push_back([=] { bfs<ConcurrentSubjectRouter, int>(2, false, "concurrent"); });
+        tasks.push_back([=] { builder_styles<SubjectRouter>("plain"); builder_styles<ConcurrentSubjectRouter>("concurrent"); });
     }
     parallel(tasks);
     shm->validated = shm->evaluations;
@@ -401,6 +452,11 @@ void explore() {
 
 void replay(const std::string &hist) {
     char rn[32], sig[32]; int maxlive, c13;
+    if (hist.compare(0, 8, "builder ") == 0) {      // cheap enough to be repeated as a whole
+        build_universe(thorough());
+        if (hist.find("router=plain") != std::string::npos) builder_styles<SubjectRouter>("plain"); else builder_styles<ConcurrentSubjectRouter>("concurrent");
+        return;
+    }
     if (sscanf(hist.c_str(), "router=%31s sig=%31s maxlive=%d c13=%d :", rn, sig, &maxlive, &c13) != 4) { violation("replay:parse", "cannot parse " + hist); return; }
     build_universe(thorough());
     std::string body = hist.substr(hist.find(':') + 1);
